@@ -165,6 +165,24 @@ func genProjected(t *rapid.T) projCase {
 	return projCase{Kind: ps.Kind, Scale: ps.Scale, Tol: drawTol(t, l), Fam: fam, V: gen.FromPts(vs)}
 }
 
+const findingTinyEdge = "tess-tiny-edge-unbounded-recursion"
+
+// interpolateNaN reports the condition under which estimateMaxError returns NaN
+// for a non-degenerate edge: the library's own interpolation of (a,b) at the
+// tessellator's evaluation fractions is not a number.
+func interpolateNaN(a, b s2.Point) bool {
+	if a == b {
+		return false
+	}
+	for _, t := range []float64{0.31215691082248312, 1 - 0.31215691082248312} {
+		m := s2.Interpolate(t, a, b)
+		if !finite(m.X, m.Y, m.Z) {
+			return true
+		}
+	}
+	return false
+}
+
 func tolOK(tol float64) bool { return tol >= 1e-13 && tol <= 1 }
 
 // classifyTess gives the Finding class of an error/tolerance breach.
@@ -196,6 +214,15 @@ func checkProjected(c projCase) ev.Outcome {
 		}
 	}
 	o.Class = ps.name() + ":" + famNames[c.Fam]
+	for i := 0; i+1 < len(vs); i++ {
+		if interpolateNaN(vs[i], vs[i+1]) {
+			// Calling the tessellator would kill the process (unbounded recursion,
+			// "fatal error: stack overflow" cannot be recovered): report without calling.
+			o.Err = fmt.Sprintf("s2.Interpolate(t, a, b) is NaN for the distinct points a=%v b=%v (separation underflows); estimateMaxError is then NaN, never <= tolerance, and AppendProjected recurses without bound (fatal stack overflow)", vs[i], vs[i+1])
+			o.Finding = findingTinyEdge
+			return o
+		}
+	}
 	tess := s2.NewEdgeTessellator(ps.lib(), s1.Angle(c.Tol))
 	var chain []r2.Point
 	ends := make([]int, 0, 3)
@@ -296,46 +323,46 @@ func checkProjected(c projCase) ev.Outcome {
 				}
 			}
 		}
-		// (ii) every point of the geodesic ab is within tol of the (unprojected) chain:
-		// an upper bound of the distance is the distance to any chain point.
-		if end-start >= 1 {
+		// (ii) every point of the geodesic ab is within tol of the image of the planar chain
+		// (image of each planar edge approximated by 64 geodesic pieces, see polyCurve).
+		{
 			kb := k / 4
 			if kb < 3 {
 				kb = 3
 			}
-			m := make([]s2.Point, end-start+1)
-			for j := start; j <= end; j++ {
-				m[j-start] = ps.unproj(chain[j].X, chain[j].Y)
+			lim := c.Tol*(1+curveFudge) + absSlack
+			curves := make([]polyCurve, end-start)
+			curve := func(j int) polyCurve {
+				if curves[j-start] == nil {
+					p, q := chain[j], chain[j+1]
+					curves[j-start] = mkCurve(func(s float64) s2.Point { return ps.unproj(p.X+(q.X-p.X)*s, p.Y+(q.Y-p.Y)*s) })
+				}
+				return curves[j-start]
 			}
 			for j := start; j < end; j++ {
+				cj := curve(j)
 				for i := 0; i < kb; i++ {
-					g := onGeodesic(m[j-start], m[j-start+1], (float64(i)+0.5)/float64(kb))
-					// g is on the chord of two points that are within 1e-14 of the geodesic; move it onto ab exactly enough:
-					// distance of g from ab is second order, covered by absSlack.
-					jj := j
-					f := func(s float64) float64 {
-						p, q := chain[jj], chain[jj+1]
-						return angle(g, ps.unproj(p.X+(q.X-p.X)*s, p.Y+(q.Y-p.Y)*s))
-					}
-					_, d := goldenMin(f, 0, 1, 8, 24)
-					if d > c.Tol+absSlack {
-						// widen: all output edges of this input edge
-						for j2 := start; j2 < end && d > c.Tol+absSlack; j2++ {
-							jj = j2
-							if _, d2 := goldenMin(f, 0, 1, 32, 30); d2 < d {
-								d = d2
+					s := (float64(i) + 0.5) / float64(kb)
+					g := onGeodesic(cj[0], cj[curvePieces], s) // the chain vertices lie on ab
+					d := cj.dist(g, int(s*curvePieces), lim)
+					for r := 1; d > lim && r < end-start; r++ { // widen to the other output edges
+						for _, j2 := range []int{j - r, j + r} {
+							if j2 >= start && j2 < end {
+								if d2 := curve(j2).dist(g, curvePieces/2, lim); d2 < d {
+									d = d2
+								}
 							}
 						}
 					}
 					if d > worstBack {
 						worstBack = d
 					}
-					if d > c.Tol+absSlack {
+					if d > lim {
 						o.Finding = "tess-geodesic-far-from-chain"
-						if d <= tessModelC*c.Tol*(1+1e-6)+absSlack {
+						if d <= tessModelC*c.Tol*(1+curveFudge)+absSlack {
 							o.Finding = "tess-scale-factor-unapplied"
 						}
-						o.Err = fmt.Sprintf("%s scale %g tol %.6g: geodesic point %v of edge %d is %.6g rad from every point of the output chain = %.5f x tolerance", ps.name(), ps.Scale, c.Tol, g, e, d, d/c.Tol)
+						o.Err = fmt.Sprintf("%s scale %g tol %.6g: geodesic point %v of edge %d is %.6g rad from the image of the output chain = %.5f x tolerance", ps.name(), ps.Scale, c.Tol, g, e, d, d/c.Tol)
 						return o
 					}
 				}
